@@ -56,6 +56,8 @@ try:
         viol = [l for l in o.splitlines() if l.startswith("VIOLATION")]
         classes = [l.strip() for l in o.splitlines() if "violation class" in l]
         meta["checks"][cid] = {"exit": rc, "violations_reported": len(viol), "classes": classes[:8], "wall_s": round(time.time() - t0)}
+        if rc not in (0, 1):
+            meta["checks"][cid]["tool_error_tail"] = [l for l in o.splitlines() if not l.startswith("WARNING")][-12:]
         meta["ran"].append("git -C /repo apply patch.diff; ./check %s quick; git -C /repo checkout -- ." % cid)
 finally:
     sh("git -C /repo checkout -- .")
